@@ -110,6 +110,11 @@ class _patched:
         return False
 
 
+def _has_state_attrs(p, names):
+    return all(hasattr(p, n) for n in names) and \
+        (not hasattr(p, "_buffer") or isinstance(getattr(p, "_buffer"), list))
+
+
 def _drain(q):
     out = []
     while True:
@@ -257,6 +262,11 @@ def h_luba_step(ctx, state):
     """Inductive step: arbitrary state satisfying the invariant, one symbolic byte."""
     with _patched(ctx):
         p = S.DriverLubaRs232.LubaProtocol()
+        if not _has_state_attrs(p, ("_rx_state", "_buffer", "_rx_expected_len", "_rx_received_len", "_process_byte")):
+            # the receiver's private state was renamed / restructured: this (white-box) step case cannot
+            # construct a state; the frame- and stream-level cases reach every state through real input
+            ctx.note("receiver-internals-changed:step-case-skipped")
+            return "skipped: receiver internals restructured"
         child = S.DistributorQueue(p.queue_rx_dali)
         RS = p.ReadState
         buf = [ctx.fresh("buf%d" % i, 0, 255) for i in range(len(p._buffer))]
@@ -406,6 +416,11 @@ def h_sci_stream(ctx, n):
 def h_sci_step(ctx, state):
     with _patched(ctx):
         p = S.DriverSCIRS232.SCIRS232Protocol()
+        if not _has_state_attrs(p, ("_rx_state", "_buffer", "_process_byte", "MAX_LEN")) or \
+                not all(hasattr(p.ReadState, n) for n in ("WAIT_STATUS", "WAIT_DATA_HI", "WAIT_DATA_MI",
+                                                          "WAIT_DATA_LO", "WAIT_CHECKSUM")):
+            ctx.note("receiver-internals-changed:step-case-skipped")
+            return "skipped: receiver internals restructured"
         RS = p.ReadState
         st_enum = [RS.WAIT_STATUS, RS.WAIT_DATA_HI, RS.WAIT_DATA_MI, RS.WAIT_DATA_LO, RS.WAIT_CHECKSUM][state]
         p._rx_state = st_enum
